@@ -43,7 +43,7 @@ use futures::{future::BoxFuture, stream::FuturesUnordered, Stream, StreamExt};
 use indexmap::IndexMap;
 use multiaddr::{Multiaddr, Protocol};
 use parking_lot::RwLock;
-use tokio::sync::mpsc::{channel, Receiver, Sender};
+use tokio::sync::mpsc::{channel, error::TrySendError, Receiver, Sender};
 
 use std::{
     collections::{HashMap, HashSet},
@@ -1154,7 +1154,25 @@ impl TransportManager {
                     match command {
                         InnerTransportManagerCommand::DialPeer { peer } => {
                             if let Err(error) = self.dial(peer).await {
-                                tracing::debug!(target: LOG_TARGET, ?peer, ?error, "failed to dial peer")
+                                tracing::debug!(target: LOG_TARGET, ?peer, ?error, "failed to dial peer");
+
+                                // The dial was not started (e.g. the outbound connection limit is
+                                // reached), so no transport event will ever conclude it: tell the
+                                // protocols, the one that asked for the dial is waiting for it.
+                                if !std::matches!(error, Error::AlreadyConnected) {
+                                    for context in self.protocols.values() {
+                                        let event = InnerTransportEvent::DialFailure {
+                                            peer,
+                                            addresses: Vec::new(),
+                                        };
+
+                                        if let Err(TrySendError::Full(event)) =
+                                            context.tx.try_send(event)
+                                        {
+                                            let _ = context.tx.send(event).await;
+                                        }
+                                    }
+                                }
                             }
                         }
                         InnerTransportManagerCommand::DialAddress { address } => {
